@@ -38,6 +38,9 @@ func (r *checkRun) runBounded() int {
 		}
 		if b.Timeout != "" {
 			cmd.Env = append(cmd.Env, "VERIF_TEST_TIMEOUT="+b.Timeout)
+		} else if r.tier == "thorough" {
+			// the thorough bounds run for minutes on an idle machine; a loaded one must not turn that into a "hang"
+			cmd.Env = append(cmd.Env, "VERIF_TEST_TIMEOUT=3000s")
 		}
 		out, err := cmd.CombinedOutput()
 		rec := map[string]any{"name": b.Name, "function": b.Test, "label": "bounded (exhaustive up to the stated bound; not a proof)", "bound_param": bound, "wall_s": round3(time.Since(start).Seconds())}
